@@ -793,6 +793,11 @@ class LexerTokenStream(TokenStream):
         comments: typing.List[LexToken] = []
         new_tokbuf = typing.Deque[LexToken]()
 
+        # the rest of the statement is skipped; what lies behind its ';' or
+        # behind the '}' of the enclosing block does not trail it
+        depth = 0
+        ended = False
+
         # This is different: we only extract tokens here
         while tokbuf:
             tok = tokbuf.popleft()
@@ -811,8 +816,14 @@ class LexerTokenStream(TokenStream):
                         break
             else:
                 new_tokbuf.append(tok)
-                if comments:
+                if comments or ended or (tok.type == "}" and depth == 0):
                     break
+                if tok.type == "{":
+                    depth += 1
+                elif tok.type == "}":
+                    depth -= 1
+                elif tok.type == ";" and depth == 0:
+                    ended = True
 
         new_tokbuf.extend(tokbuf)
         self.tokbuf = new_tokbuf
